@@ -670,10 +670,14 @@ pub fn check_c17(input: &str, stats: &mut Stats, rng: &mut Rng, exhaustive_budge
         let mut rec = Recorder::default();
         let mut calls = 0usize;
         let mut err = None;
+        let mut max_docs_per_call = 0usize;
         loop {
             calls += 1;
             let before = rec.events.len();
-            match p.load(&mut rec, false) {
+            let res = p.load(&mut rec, false);
+            let docs_in_call = rec.events[before..].iter().filter(|e| matches!(e.0, SEv::DocStart(_))).count();
+            max_docs_per_call = max_docs_per_call.max(docs_in_call);
+            match res {
                 Err(e) => {
                     err = Some(serr(&e));
                     break;
@@ -687,9 +691,17 @@ pub fn check_c17(input: &str, stats: &mut Stats, rng: &mut Rng, exhaustive_budge
                 break;
             }
         }
-        (rec.events, err, calls)
+        (rec.events, err, calls, max_docs_per_call)
     });
-    if let Ok((evs, err, calls)) = single {
+    if let Ok((evs, err, calls, max_docs_per_call)) = single {
+        if max_docs_per_call > 1 {
+            viol(
+                stats,
+                "C17/single-doc-calls/several-documents-in-one-call".into(),
+                format!("one load(multi=false) call delivered {max_docs_per_call} documents"),
+                case_json(input, vec![]),
+            );
+        }
         stats.cnt("single_doc_call_sequences", 1);
         let docs = plain.events.iter().filter(|e| matches!(e.0, SEv::DocStart(_))).count();
         let strip = |v: &[(SEv, SSpan)]| -> Vec<(SEv, Option<SSpan>)> {
